@@ -386,8 +386,11 @@ func topBody(kind, who string) func(x *harness.X) {
 		rt.BeginExplore()
 		if withTraffic {
 			go func() {
-				if srvChan != nil {
-					_ = srvChan.SendMessage(ctx, lib.Msg("s-1", "from server"))
+				// more than the client's buffers hold, so that some are still in flight
+				for i := 1; i <= 3 && srvChan != nil; i++ {
+					if err := srvChan.SendMessage(ctx, lib.Msg(fmt.Sprint("s-", i), "from server")); err != nil {
+						return
+					}
 				}
 			}()
 			go func() {
